@@ -154,6 +154,7 @@ func (s *scen) readAlphabet(wide bool) []chainsim.Action {
 		s.readRedeem("A", 0, "c0", 2, "", 0),
 		s.readRedeem("B", 1, "c0", 2, "", 0),
 		s.readRedeem("A", 1, "c0", 3, "c1", 2),
+		s.readRedeem("A", 1, "c0", 3, "key:c1", 2),
 		s.readRedeem("A", 1, "c1", 2, "", 0),
 		s.readPoolLock("c0", 1e6, 0),
 		s.readPoolUnlock("c0", 0),
@@ -161,7 +162,6 @@ func (s *scen) readAlphabet(wide bool) []chainsim.Action {
 	if wide {
 		a = append(a,
 			s.readRedeem("A", 1, "c0", 5000, "", 2),
-			s.readRedeem("A", 1, "c0", 3, "key:c1", 2),
 			s.readRedeem("A", 3, "c0", 1, "", 2),
 			s.readRedeem("B", 1, "c1", 1, "", 0),
 			s.readPoolUnlock("c1", 0),
@@ -340,7 +340,7 @@ func c09(run *ev.Run, variant string) {
 	run.Rule = "storage contract: L = sum over ALL stake pools (delegate balances + unpaid rewards), write pools, challenge pools and read pools, W = balance of the storage contract address; after every transition dL <= dW (no block reward accrues in these alphabets). Variant " + variant
 	switch variant {
 	case "life", "":
-		s.explore(run, s.lifeAlphabet(run.Pick(0, 2)), pick(run, r, "AW", "AWC"), 3, 3, s.liabMonitor)
+		s.explore(run, s.lifeAlphabet(run.Pick(1, 2)), pick(run, r, "AW", "AWC"), 2, 3, s.liabMonitor)
 	case "close":
 		s.explore(run, s.closeAlphabet(run.Thorough()), pick(run, r, "AWC", "AWK"), 2, 3, s.liabMonitor)
 	case "cap":
